@@ -135,6 +135,7 @@ class Adversary(Scheduling):
         self.program = list(program) or [0]
         self.pos = 0
         self.proposals = []      # (clock, task id, machine id) for every proposal returned
+        self.topups = 0          # reservations extended by a second provisioning call
 
     def __repr__(self):
         return 'Adversary'
@@ -156,6 +157,12 @@ class Adversary(Scheduling):
             free = len(cluster.get_available_resources())
             if free > 0:
                 cluster.provision_batch_resources(1 + d % free, workflow_plan.id)
+        elif d is not None and d % 8 == 7 and cluster.is_observation_provisioned(workflow_plan.id):
+            # elastic top-up of an existing reservation (Cluster.provision_batch_resources appends to it)
+            free = len(cluster.get_available_resources())
+            if free > 0:
+                cluster.provision_batch_resources(1 + d % free, workflow_plan.id)
+                self.topups += 1
         handed = []
         for task in sorted(workflow_plan.tasks, key=lambda t: str(t.id)):
             preds = list(workflow_plan.graph.predecessors(task))
